@@ -107,11 +107,39 @@ GX == { C("MSETNX", <<kc, N(1), kd, N(1)>>), C("MSETNX", <<ka, N(1), kc, N(1)>>)
         C("SUNIONSTORE", <<ks2, ks>>), C("SDIFFSTORE", <<ks, ks, ks2>>), C("LPUSHX", <<kl, x>>), C("LINSERT", <<kl, W("BEFORE"), y, B("z")>>),
         C("HSETNX", <<kh, f, N(5)>>), C("HINCRBY", <<kh, f, N(1)>>), C("SETRANGE", <<kb, N(0), x>>), C("LPOP", <<kl>>), C("DEL", <<ka, kb>>),
         C("EXISTS", <<ka, kb>>), C("MGET", <<ka, kb>>), C("BITOP", <<W("OR"), kc, ka, kb>>), C("LSET", <<kl, N(0), B("z")>>), C("SREM", <<ks, x>>),
-        C("PERSIST", <<ka>>), C("LPOS", <<kl, y>>), C("STRLEN", <<ka>>) }
+        C("PERSIST", <<ka>>), C("LPOS", <<kl, y>>), C("STRLEN", <<ka>>),
+        \* the destination is one of the sources: read-modify-write of one key by a multi-key command
+        C("BITOP", <<W("OR"), ka, ka, kb>>), C("BITOP", <<W("XOR"), kb, ka, kb>>), C("BITOP", <<W("AND"), ka, ka, ka>>), C("BITOP", <<W("NOT"), ka, ka>>),
+        C("SUNIONSTORE", <<ks, ks, ks2>>), C("SORT", <<kl, W("ALPHA"), W("STORE"), kl>>), C("COPY", <<ka, kb, W("REPLACE")>>), C("SETRANGE", <<ka, N(1), x>>),
+        C("GETRANGE", <<kb, N(0), N(-1)>>), C("BITCOUNT", <<ka>>), C("SINTERCARD", <<N(2), ks, ks2>>) }
 GY == { <<C("SET", <<ka, N(7)>>)>>, <<C("DEL", <<ka>>)>>, <<C("MSETNX", <<kc, N(2), kd, N(2)>>)>>, <<C("SET", <<kc, N(2)>>)>>, <<C("RPUSH", <<kl, B("q")>>)>>,
         <<C("LPOP", <<kl>>), C("LPOP", <<kl>>)>>, <<C("SADD", <<ks, B("q")>>), C("SREM", <<ks, x>>)>>, <<C("DEL", <<kl>>)>>, <<C("HSET", <<kh, f, N(9)>>)>>,
-        <<C("SET", <<kb, B("zz")>>)>>, <<C("RENAME", <<ka, kd>>)>>, <<C("SADD", <<ks2, x>>)>> }
+        <<C("SET", <<kb, B("zz")>>)>>, <<C("RENAME", <<ka, kd>>)>>, <<C("SADD", <<ks2, x>>)>>,
+        <<C("SETBIT", <<ka, N(7), N(1)>>)>>, <<C("APPEND", <<ka, N(1)>>), C("APPEND", <<kb, N(1)>>)>>, <<C("SADD", <<ks, B("q")>>), C("SADD", <<ks2, B("r")>>)>> }
 ASSUME PrintT(ToJson([gated |-> {[x |-> gx, y |-> gy] : gx \in GX, gy \in GY}, pre |-> HammerInit]))
+
+(* Forced interleavings of TRANSACTIONS: connection 1 runs a prelude (WATCH ..., MULTI, queued commands) and its EXEC is
+   the held command; connection 2 runs Y at the moment EXEC first lets go of the data store lock.  An EXEC that does all
+   its work - the watch decision included - inside one exclusive section has finished by then.  One that decides about
+   its watches first and takes the exclusive lock afterwards is caught between the two: it runs although the watched
+   key has just been modified, and the history (EXEC replies an array computed from the new value) has no linearization. *)
+Txn(pre, q) == pre \o <<C("MULTI", <<>>)>> \o q \o <<C("EXEC", <<>>)>>
+GatedTxn ==
+    {[x |-> Txn(<<C("WATCH", <<ka>>)>>, <<C("GET", <<ka>>)>>), y |-> yy] :
+        yy \in { <<C("INCR", <<ka>>)>>, <<C("SET", <<ka, N(7)>>)>>, <<C("DEL", <<ka>>)>>, <<C("SET", <<kc, N(2)>>)>>, <<C("APPEND", <<kb, x>>)>>, <<C("SET", <<ka, N(0)>>)>> }}
+    \cup {[x |-> Txn(<<C("WATCH", <<ka, kb>>)>>, <<C("INCR", <<ka>>), C("INCR", <<kb>>)>>), y |-> yy] :
+        yy \in { <<C("SET", <<kb, N(5)>>)>>, <<C("MSET", <<ka, N(3), kb, N(3)>>)>>, <<C("RENAME", <<kb, kd>>)>>, <<C("GET", <<ka>>), C("GET", <<kb>>)>> }}
+    \cup {[x |-> Txn(<<C("WATCH", <<kl>>)>>, <<C("LLEN", <<kl>>), C("LPOP", <<kl>>)>>), y |-> yy] :
+        yy \in { <<C("RPUSH", <<kl, B("q")>>)>>, <<C("LPOP", <<kl>>)>>, <<C("DEL", <<kl>>)>>, <<C("LSET", <<kl, N(0), B("q")>>)>> }}
+    \cup {[x |-> Txn(<<C("WATCH", <<kc>>)>>, <<C("SET", <<kc, N(1)>>)>>), y |-> yy] :
+        yy \in { <<C("SET", <<kc, N(2)>>)>>, <<C("SETNX", <<kc, N(2)>>)>>, <<C("SET", <<kc, N(2)>>), C("DEL", <<kc>>)>>, <<C("RPUSH", <<kc, x>>)>> }}
+    \cup {[x |-> Txn(<<C("WATCH", <<kh>>)>>, <<C("HGETALL", <<kh>>)>>), y |-> yy] :
+        yy \in { <<C("HSET", <<kh, B("g"), N(1)>>)>>, <<C("HDEL", <<kh, f>>)>>, <<C("DEL", <<kh>>)>> }}
+    \cup {[x |-> Txn(<<C("WATCH", <<ks>>)>>, <<C("SCARD", <<ks>>)>>), y |-> yy] :
+        yy \in { <<C("SADD", <<ks, B("q")>>)>>, <<C("SREM", <<ks, x>>)>>, <<C("SMOVE", <<ks, ks2, x>>)>> }}
+    \cup {[x |-> Txn(<<>>, <<C("INCR", <<ka>>), C("INCR", <<ka>>)>>), y |-> yy] : yy \in { <<C("SET", <<ka, N(7)>>)>>, <<C("GET", <<ka>>)>>, <<C("INCR", <<ka>>)>> }}
+    \cup {[x |-> Txn(<<>>, <<C("SET", <<ka, N(1)>>), C("SET", <<kb, N(1)>>)>>), y |-> yy] : yy \in { <<C("MGET", <<ka, kb>>)>>, <<C("MSET", <<ka, N(2), kb, N(2)>>)>> }}
+ASSUME PrintT(ToJson([gatedprog |-> GatedTxn, pre |-> HammerInit]))
 
 ConcVocab == UNION {{<<c, m>> : m \in PerConn(c)} : c \in {1, 2, 3}}
 =============================================================================
